@@ -45,20 +45,21 @@ Proof.
   rewrite tcode_node, get_code_node. unfold tcodes, codes. induction IH as [|c r Hc _ IHr]; simpl; [reflexivity|]. rewrite Hc, IHr. reflexivity.
 Qed.
 
-Lemma block_zero_ok toks : forallb block_zero toks = true -> zero_width_blocks toks.
+Lemma tokens_zero_width v s toks : tokenize_text v s = Tok.Ok toks -> zero_width_blocks toks.
 Proof.
-  intros H t I TY. rewrite forallb_forall in H. specialize (H t I). unfold block_zero in H. unfold emit1.
-  destruct TY as [TY|TY]; rewrite TY in H; destruct (tpre t); destruct (ts t); try discriminate; reflexivity.
+  intros H t I TY. destruct (C09.C09_token_shape _ _ _ H) as (body & e & E & TE & SE & R).
+  subst toks. apply in_app_or in I as [I|[I|[]]].
+  - destruct (TokShape.run_tokens _ _ _ _ R I) as [_ Z]. destruct (Z TY) as [Z1 Z2]. unfold emit1. rewrite Z1, Z2. reflexivity.
+  - subst t. rewrite TE in TY. destruct TY; discriminate.
 Qed.
 
 Theorem C01_roundtrip : forall v m start s t, parse_text v m start s = OTree t -> get_code t = s.
 Proof.
   intros v m start s t H. unfold parse_text in H.
   destruct (tokenize_text v s) as [toks|] eqn:TK; [|discriminate].
-  destruct (negb (forallb block_zero toks)) eqn:BZ; [discriminate|]. apply negb_false_iff in BZ.
   destruct (parse_tokens v m start toks) as [t'|] eqn:P; [|discriminate]. inversion H; subst t'.
   unfold parse_tokens in P. destruct (Engine.assocN v grams) as [[G TR]|]; [|discriminate].
-  rewrite <- tcode_get_code. rewrite (parse_keeps_text G TR _ _ _ _ P (block_zero_ok _ BZ)).
+  rewrite <- tcode_get_code. rewrite (parse_keeps_text G TR _ _ _ _ P (tokens_zero_width _ _ _ TK)).
   apply C09.C09_tokens_tile_text with (v := v). exact TK.
 Qed.
 Print Assumptions C01_roundtrip.
